@@ -1,7 +1,7 @@
 (* Properties/C02.v -- Encoder output is a conformant ISO/IEC 16022 data codeword stream (the parts that are theorems). *)
 From Coq Require Import Arith NArith List Bool.
 From DM Require Import Generated.Symbols Generated.ModeTables Spec.GF256 Spec.RSCode Model.Outcome Model.SymbolList Model.Planner Model.Enc
-  Model.RSEnc Model.GF Model.PlannerRun Model.Api Proofs.SymbolListProofs Proofs.RSEncProofs Proofs.RSEncLen Proofs.EncLocal Proofs.EncTop Spec.Stream16022 Proofs.EncAscii Proofs.PlanAscii.
+  Model.RSEnc Model.GF Model.PlannerRun Model.Api Proofs.SymbolListProofs Proofs.RSEncProofs Proofs.RSEncLen Proofs.EncLocal Proofs.EncTop Spec.Stream16022 Proofs.EncAscii Proofs.PlanAscii Proofs.EncB256.
 Import ListNotations.
 Local Open Scope N_scope.
 
@@ -97,6 +97,13 @@ Theorem C02_ascii_only_conformant : forall sorter data symbols cw s,
   exists npad, script_ok [SAscii (greedy data)] npad = true /\ cw = stream [SAscii (greedy data)] npad.
 Proof. intros so d sy cw s HS OK H. exact (proj1 (ascii_only_roundtrip so d sy cw s HS OK H)). Qed.
 Print Assumptions C02_ascii_only_conformant.
+
+Theorem C02_base256_only_conformant : forall sorter data symbols cw s,
+  (forall k l l', sorter symbols k l = Ok l' -> incl l' l) -> bytes_ok data = true ->
+  encode_data_internal (optimize_fn sorter) data symbols None 32 false false = Ok (cw, s) ->
+  exists script npad, script_ok script npad = true /\ cw = stream script npad /\ meaning script = data.
+Proof. intros so d sy cw s HS OK H. exact (proj1 (b256_only_roundtrip so d sy cw s HS OK H)). Qed.
+Print Assumptions C02_base256_only_conformant.
 
 (* NOT a theorem here: that the part between header and padding is a legal ISO/IEC 16022 mode stream that decodes
    to the input.  It is decided per case by the independent reference decoder (tools/props/refdec.py) run on the
